@@ -240,7 +240,7 @@ func c06Cases(tier string, seed uint64) []c06Case {
 		return cs
 	}
 	// thorough: every pair on the two smallest schedules, sampled triples elsewhere
-	for _, b := range []int{1, 4, 5, 6} {
+	for _, b := range []int{1, 4, 5} {
 		for i := range singles {
 			for j := i + 1; j < len(singles); j++ {
 				cs = append(cs, c06Case{Base: b, Faults: []Event{singles[i], singles[j]}})
@@ -248,6 +248,9 @@ func c06Cases(tier string, seed uint64) []c06Case {
 		}
 	}
 	r := core.NewRng(seed, 0xC06)
+	for k := 0; k < 8000; k++ { // sampled pairs on the schedule with down targets
+		cs = append(cs, c06Case{Base: 6, Faults: []Event{singles[r.Intn(len(singles))], singles[r.Intn(len(singles))]}})
+	}
 	for k := 0; k < 3000; k++ {
 		cs = append(cs, c06Case{Base: r.Intn(7), Faults: []Event{singles[r.Intn(len(singles))], singles[r.Intn(len(singles))], singles[r.Intn(len(singles))]}})
 	}
@@ -268,7 +271,7 @@ func init() {
 		Level: "fault_enumeration",
 		Rule: "same closed loop as C03; 7 fixed small base schedules (steady state in which two of four targets answer 500 from the first cycle on; first assignment with scale-up; relief of an overloaded shard; scale-down emptying the tail; steady state with late pods, kept volumes, head residue; relief whose overload ends while the moves are under way; a chained move: the relief destination becomes overloaded itself while the first source, scraping rarely, has not finished the hand-over), 8 perturbed cycles each; " +
 			"fault alphabet injected at harness-owned boundaries, each armed for exactly the cycle(s) stated: target POST not delivered, POST delivered but answer lost, sidecar restart from its store, shard not ready for 1-2 cycles, status GET failing 1-2 cycles, runtime GET failing, the shard's Prometheus answering nothing for 1-2 cycles (its reload and head-series query fail inside the sidecar), config hash out of sync with rejected push for 1-2 cycles, tail shard removed while holding targets (+ late new shards via the schedule); " +
-			"enumeration: EVERY placement of one fault (13 variants x 8 cycles x shard 0..2) on five schedules (thorough: all seven), a strided third on the others, 200 seed-sampled pairs (thorough: every pair on the three relief schedules + 3000 sampled triples); after the last fault the C03 predicate must be reached within B quiet cycles and stay for 5; " +
+			"enumeration: EVERY placement of one fault (13 variants x 8 cycles x shard 0..2) on five schedules (thorough: all seven), a strided third on the others, 200 seed-sampled pairs (thorough: every pair on the three relief schedules, 8000 sampled pairs on the down-target schedule + 3000 sampled triples); after the last fault the C03 predicate must be reached within B quiet cycles and stay for 5; " +
 			"plus the restart fault on the REAL `kvass sidecar` process (8 / 64 cases, configuration pushed or from --config.file): assigned, killed, started twice more on the same volume, configuration pushed again as the coordinator would, no targets posted - the file given to Prometheus must list exactly the resumed targets in every life; " +
 			"plus 4/32 runs of the real processes (real coordinator binary, three real sidecar binaries) with a sidecar killed and restarted, the coordinator killed and restarted, or a shard unreachable for five cycles in the middle; " +
 			"non-trivial = a fault was really applied (or the control); distinct = (schedule, fault placements)",
